@@ -1,0 +1,18 @@
+//go:build verif
+
+// Contracts for the verif build tag (read by /verif/govc; comment-only).
+package coordinator
+
+// selectNewEnsemble is the ensemble supplier ApplyClusterChanges is given: it asks the
+// ensemble selector for exactly replication-factor servers of the namespace (never
+// fewer: a cluster that is too small makes the selection fail and the namespace is
+// refused), out of the servers of the current cluster configuration.
+//
+//@ func coordinator.selectNewEnsemble(c, ns, editingStatus) (esm, err)
+//@ property C19 C18
+//@ requires c.configResource != nil && c.ensembleSelector != nil && ns != nil
+//@ assert at call Select#0: o != nil && o.Replicas == ns.ReplicationFactor && o.Status == editingStatus
+//@ loop 0 modifies fresh
+//@ loop 0 invariant (esm == nil || fresh(esm)) && len(esm) == rangeindex + 1 && len(ensembles) == ns.ReplicationFactor
+//@ ensures err == nil ==> len(esm) == ns.ReplicationFactor
+//@ modifies *
